@@ -344,3 +344,65 @@ def callable_attr(fn, name: str) -> bool:
     """self.<name> is a method / property of the class (not instance state)."""
     c = fn.cls
     return c is not None and (c.lookup(name) is not None or name in getattr(c, "getters", {}) or any(name in getattr(b, "getters", {}) for b in c.mro))
+
+
+def raw_operand_uses(t: Term, params: set[str]) -> list[Term]:
+    """Sub-terms of t in which a parameter is an operand of an arithmetic / comparison / boolean operator as it was handed in,
+    i.e. not through scalar(...) or a numpy call (which coerce their arguments)."""
+    out: list[Term] = []
+
+    def rec(x, parent) -> None:
+        if isinstance(x, frozenset):
+            for y in x:
+                rec(y, parent)
+            return
+        if not isinstance(x, tuple) or not x:
+            return
+        if not isinstance(x[0], str):
+            for y in x:
+                rec(y, parent)
+            return
+        if x[0] == "param":
+            if x[1] in params and parent is not None and parent[0] in ("binop", "cmp", "unop", "bool") and not (parent[0] == "cmp" and set(parent[1]) <= {"is", "is not"}):
+                out.append(parent)
+            return
+        for c in x[1:]:
+            rec(c, x)
+
+    rec(t, None)
+    return out
+
+
+def coerce_first(check, fn, rule: str, construct: str) -> bool:
+    """V8: a numeric kernel applies Python operators to its operands only after coercing them with scalar(...) (or inside a numpy
+    call): on the raw argument `+` concatenates lists and is a logical or on boolean masks, comparisons of lists are lexicographic
+    - the result is then not the elementwise value the property promises for every array-like the library accepts."""
+    r = Resolver(check.program, fn)
+    params = {x.name for x in fn.params if x.name not in ("self", "cls")}
+    bad: list[tuple[Node, Term]] = []
+    n_ret = 0
+    for n in r.cfg.stmt_nodes():
+        if n.copy:
+            continue
+        e = n.ast.value if isinstance(n.ast, ast.Return) else None
+        if e is None:
+            continue
+        n_ret += 1
+        for u in raw_operand_uses(r.term(e, n), params):
+            bad.append((n, u))
+    if not n_ret:
+        return True
+    # reinterpreting "conversions": ndarray.view(dtype) / np.frombuffer re-read the bytes of the argument as another type
+    for n, c in r.cfg.all_calls():
+        if n.copy:
+            continue
+        t = r.term(c, n)
+        if t[0] == "call" and t[1][0] == "attr" and t[1][2] == "view" and (t[2] or t[3]) and any(s[0] == "param" and s[1] in params for s in walk(t[1][1])):
+            check.violation(rule, construct, f"`{unparse(c)[:70]}` re-interprets the bytes of the operand as another type instead of converting its values "
+                            "(an int / float32 / float64 array that does not already have that type is read as garbage, of another length)", loc(fn, n))
+            return False
+    check.require(not bad, rule, construct,
+                  "operators are applied to the operands only after scalar() / numpy coercion" if not bad else
+                  f"`{show(bad[0][1])[:70]}` applies a Python operator to an argument as it was handed in (before scalar()): for a list or a boolean "
+                  "mask `+` is concatenation / logical or, so the result is not the elementwise value", loc(fn, bad[0][0] if bad else None))
+    return not bad
